@@ -281,7 +281,7 @@ func runSysPlug(x *X) {
 		m.compressible = c.Intn(3, "incompressible") != 0 || capCase
 		m.plain = sizedBody(x, n, m.compressible, "resp")
 		rs.body = m.plain
-		if wantGzip && n > 0 && c.Intn(6, "pre-encoded") == 0 {
+		if (wantGzip || wantSize) && n > 0 && c.Intn(6, "pre-encoded") == 0 {
 			m.preEncoded = []string{"gzip", "br", "deflate", "zstd", "x-gzip", "identity", "Identity"}[c.Intn(7, "pre-kind")] // (a label is a label: the backend has spoken)
 			if m.preEncoded == "gzip" {
 				rs.body = gz(m.plain)
@@ -490,6 +490,28 @@ func runSysPlug(x *X) {
 				// (what it declares is what it delivers), however small the configured limit is
 				if got.status == 413 && got.err != "" && ex.method != "HEAD" {
 					x.Violate("C14", "C14/413-answer-malformed", "exchange %d: the 413 for an oversized response (max_response_body=%d) cannot be read completely: %d body bytes, Content-Length %q, then %s", ex.id, L2, len(got.body), got.hdr.Get("Content-Length"), got.err)
+				}
+				// ... and it is Helios' own answer: what it says about its coding is about its own body,
+				// not about the response it stands in for
+				if ce := strings.ToLower(got.hdr.Get("Content-Encoding")); got.status == 413 && ce != "" && ce != "identity" && ex.method != "HEAD" && len(got.body) > 0 {
+					readable := true
+					switch ce {
+					case "gzip", "x-gzip":
+						_, err := gunz(got.body)
+						readable = err == nil
+					default:
+						// (no decoder at hand for the others: an encoded stream is not plain printable text)
+						plain := true
+						for _, b := range got.body {
+							if b != '\n' && b != '\r' && b != '\t' && (b < 0x20 || b > 0x7e) {
+								plain = false
+							}
+						}
+						readable = !plain
+					}
+					if !readable {
+						x.Violate("C14", "C14/413-answer-mislabelled{"+ce+"}", "exchange %d: the 413 for an oversized response says Content-Encoding %q and carries %d bytes that are not in that coding (%q): a client that honours the header cannot read it", ex.id, ce, len(got.body), trunc(string(got.body), 40))
+					}
 				}
 				if !fragment && first > L2 && len(rs.body) <= 3000 && !wantGzip && rs.framing == "cl" && !eventStream && got.status != 413 {
 					x.Violate("C14", "C14/oversized-response-not-413", "exchange %d: the first response write (%d bytes) already exceeds max_response_body=%d, client got status %d with %d bytes", ex.id, first, L2, got.status, len(got.body))
